@@ -177,7 +177,7 @@ def model_worker(args):
         from harness import build
         from engine import codec, gen
         proc = rj.extra_event(rng, defn, lims)
-        route = rng.choice([r for r in build.valid_routes(proc) if r != "ODE"])
+        route = build.pick_add_route(rng, proc, allow_ode=False)
         try:
             _slot, adder, obj = build.api_object(defn.sy, proc, route, codec.render(defn.sy, proc["rate"], rng.randrange(6), rng),
                                                  style=rng.randrange(6), rng=rng)
